@@ -18,6 +18,8 @@ def obligations(tier):
     obs = [dict(name="selftest_strip", func="selftest_strip", file="xhlib.py", timeout=60, bounds="engine self-test")]
     for case in range(7):
         for op in range(15):
+            if tier == "quick" and case in (2, 6) and op not in (0, 1, 2, 12, 13, 14):
+                continue   # properties without an alias: the key-level operations run in the thorough tier only
             obs.append(dict(name=f"step[case{case},op{op}]", func="step", pre=f"case == {case} and op == {op}", timeout=T,
                             bounds="presence bits x 4 rotations x reversal x values <=1 char"))
     for case in range(7):
